@@ -411,6 +411,10 @@ def run(run: Run):
     run.guard('C04.R1', r1, run, src, rt)
     run.guard('C04.R2', r2, run, rt)
     run.guard('C04.R3', r3, run, src)
+    from .common import check_per_instance_state
+    run.rule('C04.R4', 'overrides are per instance: no class-level mutable state is changed in place or handed out')
+    run.guard('C04.R4', check_per_instance_state, run, 'C04.R4', get_runtime(get_source()))
+    run.floor('C04.R4', 6)
     run.floor('C04.R1', 10)
     run.floor('C04.R2', 4)
     run.floor('C04.R3', 5)
